@@ -89,6 +89,71 @@ impl Report {
         });
     }
 
+    /// Serialises what a worker process found (see `props::shard`).
+    pub(crate) fn to_shard_json(&self) -> Value {
+        json!({
+            "counters": self.counters,
+            "coverage": self.coverage,
+            "violations": self.violations.iter().map(|v| json!({"signature": v.signature, "detail": v.detail, "replay": v.replay})).collect::<Vec<_>>(),
+            "samples": self.samples,
+            "caps_hit": self.caps_hit,
+            "exhaustive": self.exhaustive,
+            "assumptions": self.assumptions,
+        })
+    }
+
+    pub(crate) fn merge_shard(&mut self, v: &Value) {
+        if let Some(c) = v["counters"].as_object() {
+            for (k, n) in c {
+                self.count(k, n.as_u64().unwrap_or(0));
+            }
+        }
+        if let Some(c) = v["coverage"].as_object() {
+            for (k, val) in c {
+                match (self.coverage.get(k).and_then(|x| x.as_u64()), val.as_u64()) {
+                    (Some(a), Some(b)) => {
+                        self.coverage.insert(k.clone(), json!(a + b));
+                    }
+                    _ => {
+                        if !self.coverage.contains_key(k) {
+                            self.coverage.insert(k.clone(), val.clone());
+                        }
+                    }
+                }
+            }
+        }
+        if let Some(vs) = v["violations"].as_array() {
+            for it in vs {
+                self.violation(
+                    it["signature"].as_str().unwrap_or("?").to_owned(),
+                    it["detail"].as_str().unwrap_or("").to_owned(),
+                    it["replay"].clone(),
+                );
+            }
+        }
+        if let Some(ss) = v["samples"].as_array() {
+            for s in ss {
+                self.sample(s.clone());
+            }
+        }
+        if let Some(cs) = v["caps_hit"].as_array() {
+            for c in cs {
+                if let Some(c) = c.as_str() {
+                    self.cap(c);
+                }
+            }
+        }
+        if let Some(a) = v["assumptions"].as_array() {
+            for x in a {
+                if let Some(x) = x.as_str() {
+                    if !self.assumptions.iter().any(|y| y == x) {
+                        self.assumptions.push(x.to_owned());
+                    }
+                }
+            }
+        }
+    }
+
     /// Writes evidence and replay files, prints KNOWN-FINDING / VIOLATION lines, returns exit code.
     pub(crate) fn finish(mut self) -> i32 {
         let root = verif_root();
@@ -98,7 +163,7 @@ impl Report {
         let replay_dir = root.join("replays").join(&self.id);
         for (i, v) in self.violations.iter().enumerate() {
             let entry = known.iter().find(|k| {
-                k.property == self.id && k.status == "known" && v.signature.starts_with(&k.signature)
+                k.property == self.id && k.status == "known" && v.signature == k.signature
             });
             if let Some(k) = entry {
                 println!(
